@@ -110,6 +110,9 @@ func runC06(c *Ctx) {
 		ok := inc != nil && wr != nil && upd != nil && instrDominates(inc, wr) && dominatedBySuccess(wr.(ssa.Value), upd)
 		c.Check(ok, "R6.2", "dag.merge:clock-objects-ref", w.FnPos(mf), "Increment → Write → UpdateRef(result of Write)", "the merge commit path is not ordered clock increment → object writes → ref update")
 	}
+	// the clocks stay at or above every stored time: persistence and rebuild rules shared with C05
+	checkMemClock(c)
+	checkClockRebuild(c)
 	// R6.3
 	pw := w.Method("util/lamport", "PersistedClock", "Write")
 	if pw == nil {
